@@ -515,6 +515,61 @@ def run_derived_targets(ctx):
                     else:
                         ctx.count("monitor", "loops_or_overlong")
                     ctx.case(("derived", how, mr, ends_after, res[0], conns), True, sample=wit)
+        # a hop whose URL is as long as a request may be (1022 bytes + CRLF = 1024), one byte shorter, one longer: the first
+        # two are ordinary hops of a loop-free chain; the third cannot be requested at all
+        for nbytes in (1021, 1022, 1023):
+            for pad_char in ("a", "\u00e9"):
+                del seen[:]
+                head = f"gemini://127.0.0.1:{srv.port}/L"
+                room = nbytes - len(head.encode())
+                pad = pad_char * (room // len(pad_char.encode()))
+                pad += "a" * (room - len(pad.encode()))
+                long_url = head + pad
+                state_ = {"n": 0}
+
+                def long_behaviour(conn, long_url=long_url):
+                    line = conn.read_line(timeout=4, limit=70000) if hasattr(conn, "read_line") else None
+                    state_["n"] += 1
+                    if line is not None and line.decode("utf-8", "replace").endswith("/start"):
+                        conn.send(f"30 {long_url}\r\n".encode())
+                    elif line is not None and line.decode("utf-8", "replace") == long_url:
+                        conn.send(b"20 text/gemini\r\nend of the long hop\n")
+                    else:
+                        conn.send(b"51 not part of this chain\r\n")
+                    conn.close()
+
+                with peers.ScriptedPeer(certs.identity("c16-derived", "ec"), long_behaviour, name="long") as lsrv:
+                    long_url = long_url.replace(f":{srv.port}/", f":{lsrv.port}/")
+                    # (the port may have another number of digits: re-pad to the exact size)
+                    diff = nbytes - len(long_url.encode())
+                    long_url = long_url + "a" * diff if diff >= 0 else long_url[:diff]
+                    lsrv.behaviour = lambda conn, long_url=long_url: long_behaviour(conn, long_url)
+                    tmp = tempfile.mkdtemp(prefix="vf-c16d-")
+
+                    async def go_long():
+                        c = GeminiClient(timeout=8, max_redirects=3, trust_on_first_use=True, tofu_db_path=Path(os.path.join(tmp, "t.db")))
+                        return await c.get(f"gemini://127.0.0.1:{lsrv.port}/start")
+
+                    try:
+                        r = asyncio.run(go_long())
+                        res = ("response", r.status, (r.meta or "")[:40])
+                    except BaseException as e:  # noqa: BLE001
+                        res = ("error", type(e).__name__, str(e)[:80])
+                    finally:
+                        shutil.rmtree(tmp, ignore_errors=True)
+                    lsrv.wait_idle(3)
+                    conns = len(lsrv.log)
+                    ctx.count("monitor", "fetches")
+                    ctx.count("monitor", "fetches_with_derived_targets")
+                    wit = {"level": "derived-targets", "hop_url_bytes": len(long_url.encode()), "hop_url_characters": len(long_url), "result": res, "connections": conns}
+                    if len(long_url.encode()) <= 1022:
+                        if res[:2] != ("response", 20) or conns != 2:
+                            ctx.violation(f"chain-within-limit-not-followed:hop-url-of-{'maximal' if nbytes == 1022 else 'near-maximal'}-length", f"a one-redirect chain whose hop URL is {len(long_url.encode())} bytes long (a request line may be 1024 with CRLF) ended as {res} after {conns} connections", wit)
+                        else:
+                            ctx.count("monitor", "chains_followed_to_end")
+                    elif res[0] == "response" and res[1] == 20:
+                        ctx.violation("oversize-hop-requested", "a hop URL that does not fit a request line was requested", wit)
+                    ctx.case(("derived", "long-hop", nbytes, pad_char == "a", res[0], conns), True, sample=wit)
         # chains that walk UP a directory tree: loop-free although every target is a prefix of an earlier URL
         for depth in (1, 2, 3, 4):
             for mr in (depth - 1, depth, 5):
